@@ -39,7 +39,7 @@ pub struct Sc { pub mode: Mode, pub pre_datagrams: usize, pub live_datagrams: us
     pub pre_flood: bool,
     /// the callback of the FIRST network event (and of signal 0) lingers this many ms (longer than any internal wait of the listener)
     pub long_cb_ms: u64,
-    /// ONE sender keeps sending numbered datagrams (every ~150 us) from before the listener call until the end:
+    /// ONE sender keeps sending numbered datagrams (about 100 per millisecond) from before the listener call until the end:
     /// the numbers handed to the callback / offered by the queue are strictly increasing
     pub numbered_stream: bool,
     /// an EMPTY datagram is sent after pre-datagram #1 (before the listener call) and after the first live one
@@ -125,8 +125,8 @@ pub fn run_scenario(sc: &Sc, out: &mut Out) -> Option<String> {
     if sc.numbered_stream {
         // numbers from 100_000 on, one socket, one thread
         let (bg_stop, addr) = (bg_stop.clone(), addr);
-        bg.push(std::thread::spawn(move || { let s = UdpSocket::bind("127.0.0.1:0").unwrap(); let mut n = 100_000u64; while !bg_stop.load(Ordering::SeqCst) && n < 390_000 { let _ = s.send_to(&n.to_le_bytes(), addr); n += 1; std::thread::sleep(Duration::from_micros(150)); } }));
-        std::thread::sleep(Duration::from_millis(250));
+        bg.push(std::thread::spawn(move || { let s = UdpSocket::bind("127.0.0.1:0").unwrap(); let mut n = 100_000u64; while !bg_stop.load(Ordering::SeqCst) && n < 390_000 { let _ = s.send_to(&n.to_le_bytes(), addr); n += 1; if n % 64 == 0 { std::thread::sleep(Duration::from_micros(60)); } } }));
+        std::thread::sleep(Duration::from_millis(600));
     }
     if sc.pre_tcp_stream {
         use std::io::Write;
@@ -440,7 +440,9 @@ pub fn run(a: &Args) {
         // one callback that lasts longer than any internal wait (130 ms) while events of the other kind are ready
         scs.push(Sc { mode, pre_datagrams: 0, live_datagrams: 5, signals: 9, stop: StopAt::External(700), cb_micros: 0, inflight: false, pre_session: false, live_session_stop: false, flood: false, timer_churn: false, pre_flood: false, long_cb_ms: 130, numbered_stream: false, with_empties: false, pre_tcp_stream: false });
         scs.push(Sc { mode, pre_datagrams: 3, live_datagrams: 5, signals: 9, stop: StopAt::External(700), cb_micros: 100, inflight: false, pre_session: false, live_session_stop: false, flood: true, timer_churn: false, pre_flood: false, long_cb_ms: 130, numbered_stream: false, with_empties: false, pre_tcp_stream: false });
-        scs.push(Sc { mode, pre_datagrams: 0, live_datagrams: 0, signals: 2, stop: StopAt::External(500), cb_micros: 0, inflight: false, pre_session: false, live_session_stop: false, flood: false, timer_churn: false, pre_flood: false, long_cb_ms: 0, numbered_stream: true, with_empties: false, pre_tcp_stream: false });
+        for _ in 0..(if mode == Mode::Enqueue { 3 } else { 1 }) {
+            scs.push(Sc { mode, pre_datagrams: 0, live_datagrams: 0, signals: 2, stop: StopAt::External(300), cb_micros: 0, inflight: false, pre_session: false, live_session_stop: false, flood: false, timer_churn: false, pre_flood: false, long_cb_ms: 0, numbered_stream: true, with_empties: false, pre_tcp_stream: false });
+        }
         scs.push(Sc { mode, pre_datagrams: 4, live_datagrams: 4, signals: 2, stop: StopAt::External(400), cb_micros: 0, inflight: false, pre_session: false, live_session_stop: false, flood: false, timer_churn: false, pre_flood: false, long_cb_ms: 0, numbered_stream: false, with_empties: true, pre_tcp_stream: false });
         scs.push(Sc { mode, pre_datagrams: 3, live_datagrams: 6, signals: 2, stop: StopAt::External(1200), cb_micros: 0, inflight: false, pre_session: false, live_session_stop: false, flood: false, timer_churn: false, pre_flood: false, long_cb_ms: 0, numbered_stream: false, with_empties: false, pre_tcp_stream: true });
         // a long start-up cache, a callback slow enough for the live traffic to arrive during the replay
